@@ -16,6 +16,8 @@
 //!  * addressing matrix (C18): 21 local x 21 destination addresses of every kind (IPv4, IPv6 global,
 //!    mapped, NAT64, multicast, link-local with and without scope ids, flow info, port 0) x request
 //!    served to its time-out / indication / response / application data x transports;
+//!  * message contents (C18): requests carrying one raw attribute of each of the 65 536 types (value
+//!    lengths 0 / 4 / 8 / 20, plain and fingerprinted) served through the default schedule;
 //!  * purity (C20): each history is run three times on fresh threads, the third alongside unrelated
 //!    agents; the complete reply transcripts must be identical.
 use super::*;
@@ -226,10 +228,85 @@ fn addressing(sc: &Scenario) -> Outcome {
     out
 }
 
+/// Message contents (C18): requests carrying one raw attribute of every 16-bit type (256 types per
+/// scenario: block `n`), value length `kind` in {0, 4, 8, 20}, after a SOFTWARE attribute, without
+/// integrity (via 0) or fingerprinted (via 1); every transmission of the default schedule is the
+/// request's serialisation.  What the message says never changes how it is transmitted.
+fn contents(sc: &Scenario) -> Outcome {
+    let base = base_instant();
+    let t = if sc.tcp { TransportType::Tcp } else { TransportType::Udp };
+    let mut out = Outcome { breaches: vec![], transcript: vec![] };
+    let dest = saddr(0, 1);
+    let value: Vec<u8> = (0..sc.kind as usize).map(|i| if i == 2 { 1 } else { 0 }).collect();
+    for lo in 0..256usize {
+        let typ = (sc.n * 256 + lo) as u16;
+        if matches!(typ, 0x0008 | 0x001C | 0x8028) {
+            continue; // the sealing attributes have rules of their own in the builder
+        }
+        let mut a = StunAgent::builder(t, local_addr()).build();
+        let sw = Software::new("c").unwrap();
+        let mut b = Message::builder(MessageType::from_class_method(MessageClass::Request, BINDING), stid(typ as usize).into());
+        b.add_attribute(&sw).unwrap();
+        if b.add_raw_attribute(RawAttribute::new(AttributeType::new(typ), &value)).is_err() {
+            continue; // 0x8022 twice
+        }
+        if sc.via == 1 {
+            b.add_fingerprint().unwrap();
+        }
+        let mut w = wire::encode_header(0, 1, stid(typ as usize), 0);
+        wire::append_raw(&mut w, 0x8022, b"c");
+        wire::append_raw(&mut w, typ, &value);
+        if sc.via == 1 {
+            wire::append_fp(&mut w);
+        }
+        let mut n_tx = 0;
+        match a.send(b, dest, base) {
+            Ok(tr) => {
+                n_tx += 1;
+                if tr.data() != &w[..] {
+                    out.breaches.push(("C18", "contents/initial-bytes".into(), format!("the initial transmission of a request carrying attribute type {typ:#06x} is not its serialisation"), crate::common::fmt_bytes(&w), crate::common::fmt_bytes(tr.data())));
+                    return out;
+                }
+            }
+            Err(e) => {
+                out.breaches.push(("C05", "contents/send-refused".into(), format!("a request carrying attribute type {typ:#06x} was refused"), "Ok".into(), format!("{e:?}")));
+                return out;
+            }
+        }
+        let mut now = base;
+        for _ in 0..24 {
+            match a.poll(now) {
+                StunAgentPollRet::WaitUntil(i) => {
+                    if i <= now {
+                        break;
+                    }
+                    now = i;
+                }
+                StunAgentPollRet::SendData(tr) => {
+                    n_tx += 1;
+                    if tr.data() != &w[..] || tr.to != dest || tr.from != local_addr() {
+                        out.breaches.push(("C18", "contents/retransmission-bytes".into(), format!("transmission #{n_tx} of a request carrying attribute type {typ:#06x} (length {}) is not the request as handed over", sc.kind), crate::common::fmt_bytes(&w), crate::common::fmt_bytes(tr.data())));
+                        return out;
+                    }
+                }
+                StunAgentPollRet::TransactionTimedOut(_) => break,
+                StunAgentPollRet::TransactionCancelled(_) => break,
+            }
+        }
+        let want_tx = if sc.tcp { 1 } else { 7 };
+        if n_tx != want_tx {
+            out.breaches.push(("C06", "contents/transmissions".into(), format!("a request carrying attribute type {typ:#06x} was transmitted {n_tx} times under the default schedule"), want_tx.to_string(), n_tx.to_string()));
+            return out;
+        }
+    }
+    out
+}
+
 pub fn run_scenario(sc: &Scenario) -> Outcome {
     match guarded(|| match sc.family.as_str() {
         "peers" => peers(sc),
         "addr" => addressing(sc),
+        "contents" => contents(sc),
         _ => transactions(sc),
     }) {
         Ok(o) => o,
@@ -532,14 +609,15 @@ pub fn judge(prop: &str, sc: &Scenario, acc: &mut Acc) {
     acc.outcome(match sc.family.as_str() {
         "peers" => "long history: many peers",
         "addr" => "addressing matrix: local x destination x message kind",
+        "contents" => "message contents: 256 attribute types served to time-out",
         _ => "long history: many concurrent requests",
     });
 }
 
 pub fn scenarios(prop: &str, thorough: bool) -> Vec<Scenario> {
     let mut v = Vec::new();
-    let peers_max = if thorough { 4200 } else { 1100 };
-    let tx_max = if thorough { 1100 } else { 300 };
+    let peers_max = if thorough { 70_000 } else { 10_000 };
+    let tx_max = if thorough { 4200 } else { 1100 };
     let want_peers = matches!(prop, "C15" | "C20");
     let want_tx = matches!(prop, "C05" | "C06" | "C18" | "C20");
     if want_peers {
@@ -548,7 +626,7 @@ pub fn scenarios(prop: &str, thorough: bool) -> Vec<Scenario> {
                 for via in 0..=2u8 {
                     // every size up to 300 for one combination per family, a ladder of sizes for all
                     let every = (kind == 4 || kind == 0) && !tcp;
-                    let sizes: Vec<usize> = if every { (1..=300).chain([511, 512, 513, 1023, 1024, 1025, peers_max]).collect() } else { vec![1, 2, 17, 64, 65, 127, 128, 129, 255, 256, 257, peers_max] };
+                    let sizes: Vec<usize> = if every { (1..=300).chain([511, 512, 513, 1023, 1024, 1025, 2047, 2048, 2049, 4095, 4096, 4097, 8191, 8192, 8193, peers_max]).collect() } else { vec![1, 2, 17, 64, 65, 127, 128, 129, 255, 256, 257, 4097, peers_max] };
                     for n in sizes {
                         if kind == 1 && n > 60_000 {
                             continue;
@@ -565,6 +643,20 @@ pub fn scenarios(prop: &str, thorough: bool) -> Vec<Scenario> {
                 for d in 0..N_SPECIAL {
                     for via in 0..=3u8 {
                         v.push(Scenario { family: "addr".into(), tcp, kind: l as u8, n: d, via, mix: ((l + d) % 2) as u8, noise: false });
+                    }
+                }
+            }
+        }
+    }
+    if prop == "C18" {
+        for tcp in [false, true] {
+            for len in [0u8, 4, 8, 20] {
+                for via in [0u8, 1] {
+                    if tcp && (via == 1 || len == 8) {
+                        continue;
+                    }
+                    for block in 0..256usize {
+                        v.push(Scenario { family: "contents".into(), tcp, kind: len, n: block, via, mix: 0, noise: false });
                     }
                 }
             }
